@@ -80,6 +80,10 @@ def judge_matrix(ctx, M, cfg, tag):
         t = 2.0 * vk.variance(cfg["layer_r0s"][l], cfg["layer_L0s"][l]) * np.abs(np.outer(coef, coef))     # a noise bound: coef is negative for layers above the guide star
         cc = t if cc is None else cc + t
     tol = 2 * (cfg["n_layers"] + 2) * EPS32 * Rabs + 256 * EPS64 * cc + 1e-300
+    # "geometrically projected" does not say whether an off-axis footprint is displaced by h theta or by h tan(theta): the band
+    # between the two readings (relative 1e-8 of the displacement at 40 arcsec) is not judged
+    Rtan = sum(slopecov.reference_matrix(cfg, [l], projection="tangent") for l in range(cfg["n_layers"]))
+    tol = tol + np.abs(Rtan - R)
     err = np.abs(M64 - k * R)
     ratio = float((err / tol).max())
     ctx.metric("entry_err/tol", ratio)
